@@ -157,6 +157,19 @@ var c11CuratedFamilies = []c11Family{
 			{Text: "[@dict, @item]", Only: []string{"@dict", "@item", "@id"}},
 		},
 	},
+	{ // two types which each bring a type of their own under the SAME name (the root has none of
+		// that name): which definition the root ends up with must not depend on anything but the texts
+		Types: []lib.TypeDef{
+			{Name: "@cat", Text: "{\n  \"id\": @id\n}", Own: []lib.TypeDef{{Name: "@id", Text: "5 // {min: 1}"}}},
+			{Name: "@dog", Text: "{\n  \"tag\": @id\n}", Own: []lib.TypeDef{{Name: "@id", Text: "/^[a-z]{2,4}$/", Regex: true}}},
+			{Name: "@emu", Text: "{\n  \"e\": @id // {optional: true}\n}", Own: []lib.TypeDef{{Name: "@id", Text: "true"}}},
+		},
+		Roots: []c11Root{
+			{Text: "{\n  \"cat\": @cat,\n  \"dog\": @dog\n}"},
+			{Text: "[@dog, @cat, @emu]"},
+			{Text: "@emu | @dog"},
+		},
+	},
 }
 
 var c11CuratedDocs = []c11Doc{
@@ -519,6 +532,9 @@ var c11ExhPools = []c11ExhPool{
 	{"one type object legal in the first root and illegal in the second (a name it references is missing / bound to a number) + a document", c11Pool{
 		Families: []c11Family{{Types: c11CuratedFamilies[11].Types, Roots: c11CuratedFamilies[11].Roots[:3]}},
 		Docs:     []c11Doc{{Text: `{"it": {"owner": 5}}`}}}},
+	{"types bringing different types of their own under one name + a document", c11Pool{
+		Families: []c11Family{{Types: c11CuratedFamilies[12].Types, Roots: c11CuratedFamilies[12].Roots[:2]}},
+		Docs:     []c11Doc{{Text: `{"cat": {"id": 7}, "dog": {"tag": 7}}`}}}},
 	{"two allOf parents, key shortcut roots + a trailing-characters document", c11Pool{
 		Families: []c11Family{{Types: c11CuratedFamilies[5].Types, Roots: c11CuratedFamilies[5].Roots[:2]}},
 		Docs:     []c11Doc{{Text: `{"p1": 1, "own": true, "kk2": 5} x`, Trailing: true}}}},
